@@ -110,15 +110,57 @@ package index
 // (the last bytes.Equal answered true); every error path before the segments are opened
 // releases the handle it obtained.
 //@ func Writer.loadSnapshot
-//@   props C12 C03
+//@   props C12 C03 C11
 //@   borrow Data.Read until Closer.Close
-//@   modifies openHandles, bytesEqTrue, decodedOK
+//@   modifies openHandles, bytesEqTrue, decodedOK, segOpened, segReleased
 //@   at call Data.Read: assert [trailer-read-only-after-the-body-decoded] decodedOK > old(decodedOK)
 //@   assume_frame
 //@   ensures [crc-gate] (result0 != nil && old(s.config.ValidateSnapshotCRC)) ==> bytesEqTrue > old(bytesEqTrue)
 //@   ensures [nil-or-error] (result0 == nil) <==> (result1 != nil)
 //@   ensures [epoch] result0 != nil ==> result0.epoch == epoch
+//@   ensures {C11} [opened-segments-released-on-failure] result1 != nil ==> segReleased - old(segReleased) == segOpened - old(segOpened)
 //@   effect (result1 == nil) <==> loadable(epoch)
+//@   loop 1
+//@     invariant {C11} segOpened == old(segOpened) + rangeindex + 1 && segReleased == old(segReleased)
+//@     invariant {C11} rangeindex < len(snapshot.segment)
+//@     invariant {C11} forall k int :: (0 <= k && k <= rangeindex) ==> (snapshot.segment[k] != nil && snapshot.segment[k].segment != nil)
+
+// segOpened / segReleased: segment files opened by loadSegment / references on loaded segments given
+// back (refCounter.DecRef); a snapshot that is abandoned half-loaded has to give back what it opened
+//@ ghost var segOpened int
+//@ ghost var segReleased int
+
+//@ func Writer.loadSegment(id, plugin) (w, err)
+//@   props C11 C03 C12
+//@   requires s != nil && plugin != nil
+//@   modifies openHandles, segOpened
+//@   assume_frame
+//@   ensures err != nil ==> (w == nil && openHandles == old(openHandles))
+//@   ensures err == nil ==> w != nil
+//@   effect segOpened == old(segOpened) + ite(err == nil, 1, 0)
+
+// assumed: no nil plugin is registered in the configuration
+//@ func loadSegmentPlugin(supported, typ, ver) (p, err)
+//@   props C11 C03 C12
+//@   trusted
+//@   pure
+//@   ensures err == nil ==> p != nil
+
+//@ func refCounter.DecRef(recv) (err)
+//@   interface
+//@   props C11 C03 C12
+//@   modifies segReleased, openHandles, closeOnLastRefCounter.refs
+//@   effect segReleased == old(segReleased) + 1
+
+//@ func closeLoadedSegments(snapshot, n)
+//@   props C11 C03 C12
+//@   nopanic nonil
+//@   requires snapshot != nil && 0 <= n && n <= len(snapshot.segment)
+//@   requires forall k int :: (0 <= k && k < n) ==> (snapshot.segment[k] != nil && snapshot.segment[k].segment != nil)
+//@   modifies segReleased, openHandles, closeOnLastRefCounter.refs
+//@   ensures segReleased == old(segReleased) + n
+//@   loop 1
+//@     invariant segReleased == old(segReleased) + rangeindex + 1 && rangeindex < n
 
 // loadable(e): the snapshot file of epoch e and all its segments load (an oracle about the directory
 // content, fixed while a writer or reader is being opened).
